@@ -7,9 +7,11 @@ import (
 	"errors"
 	"fmt"
 	"os"
+	"os/signal"
 	"path/filepath"
 	"regexp"
 	"strings"
+	"sync"
 	"syscall"
 	"testing"
 
@@ -38,6 +40,7 @@ type c18FileOp struct {
 	Kind  int  `json:"kind"`  // 0 write private, 1 write public, 2 operator chmod, 3 replace by symlink, 4 delete
 	Force bool `json:"force"`
 	Mode  int  `json:"mode"`
+	Limit int  `json:"limit,omitempty"` // > 0: the disk refuses to let the file grow beyond Limit-1 bytes during this write (RLIMIT_FSIZE)
 }
 
 type C18Spec struct {
@@ -68,6 +71,11 @@ func drawC18(rt *rapid.T) C18Spec {
 			Mode: rapid.SampledFrom([]int{0o644, 0o666, 0o400, 0o600, 0o777}).Draw(rt, "mode")})
 	}
 	s.FailAt = rapid.IntRange(0, 3000).Draw(rt, "failat")
+	for i := range s.Ops {
+		if s.Ops[i].Kind <= 1 && rapid.IntRange(0, 3).Draw(rt, "diskfull") == 0 {
+			s.Ops[i].Limit = 1 + rapid.IntRange(0, 1500).Draw(rt, "limit")
+		}
+	}
 	return s
 }
 
@@ -379,6 +387,27 @@ func c18BitRot(r *kernel.Run, s C18Spec, sk *gabikeys.PrivateKey, pk *gabikeys.P
 // --- scenario 2: file histories on the real file system
 var fsCounter int
 
+var ignoreXFSZ sync.Once
+
+// limitFileSize makes every write that would grow a file beyond n bytes fail with EFBIG (the process-wide
+// soft RLIMIT_FSIZE; SIGXFSZ ignored) until the returned function is called. Nothing else in a check
+// process writes files while a run executes.
+func limitFileSize(n uint64) func() {
+	ignoreXFSZ.Do(func() { signal.Ignore(syscall.SIGXFSZ) })
+	var old syscall.Rlimit
+	if err := syscall.Getrlimit(syscall.RLIMIT_FSIZE, &old); err != nil {
+		panic(err)
+	}
+	if err := syscall.Setrlimit(syscall.RLIMIT_FSIZE, &syscall.Rlimit{Cur: n, Max: old.Max}); err != nil {
+		panic(err)
+	}
+	return func() {
+		if err := syscall.Setrlimit(syscall.RLIMIT_FSIZE, &old); err != nil {
+			panic(err)
+		}
+	}
+}
+
 func c18Files(r *kernel.Run, s C18Spec, sk *gabikeys.PrivateKey, pk *gabikeys.PublicKey) {
 	fsCounter++
 	dir := filepath.Join(os.TempDir(), fmt.Sprintf("gabi-verif-c18-%d-%d", os.Getpid(), fsCounter))
@@ -430,13 +459,34 @@ func c18Files(r *kernel.Run, s C18Spec, sk *gabikeys.PrivateKey, pk *gabikeys.Pu
 			before, _ := os.ReadFile(path)
 			var err error
 			r.Eval(1)
+			restore := func() {}
+			if op.Limit > 0 {
+				restore = limitFileSize(uint64(op.Limit - 1))
+				r.Fault("disk:file-size-limit")
+			}
 			if op.Kind == 0 {
 				_, err = sk.WriteToFile(path, op.Force)
 			} else {
 				_, err = pk.WriteToFile(path, op.Force)
 			}
-			r.Logf("%s write kind=%d force=%v existed=%v err=%v", step, op.Kind, op.Force, existed, err != nil)
+			restore()
+			r.Logf("%s write kind=%d force=%v existed=%v limit=%d err=%v", step, op.Kind, op.Force, existed, op.Limit, err != nil)
 			det := map[string]any{"prior": s.Prior, "force": op.Force, "private": op.Kind == 0}
+			if op.Limit > 0 && (op.Force || !existed) {
+				// the write may fail part-way; whatever it left behind, private key material must not be
+				// readable by group or others, and a write that reports success must read back
+				det["disk_fault"] = true
+				if op.Kind == 0 {
+					if st, serr := os.Stat(path); serr == nil && st.Mode().Perm()&0o077 != 0 && st.Size() > 0 {
+						r.Violate("C18:private-key-file-readable-by-others", det, "%s: mode %o on a %d-byte file left behind by a private-key write that hit a file size limit of %d bytes (err=%v; prior state %d, umask %o)", step, st.Mode().Perm(), st.Size(), op.Limit-1, err, s.Prior, s.Umask)
+					}
+				}
+				if err != nil {
+					r.Probe("write-failed-part-way")
+					holdsPrivate = false
+					continue
+				}
+			}
 			if !op.Force && existed {
 				if err == nil {
 					r.Violate("C18:existing-file-overwritten-without-force", det, "%s: WriteToFile(force=false) overwrote an existing path", step)
